@@ -74,12 +74,9 @@ CLAIMS.update({
 })
 
 # ---- additions after the second round of seeded changes (expression extraction, engine E10) ----------------
+AMEND=[]
 def _amend(pid, old, new, tech_add, claim_add=""):
-    lvl, claim, trust, tech = CLAIMS[pid]
-    if old:
-        assert old in claim, (pid, old)
-        claim = claim.replace(old, new)
-    CLAIMS[pid] = (lvl, claim + claim_add, trust, tech + tech_add)
+    AMEND.append((pid, old, new, tech_add, claim_add))
 
 _EX = "; symbolic expression extraction (flow-sensitive value numbering over go/ssa with verified helper summaries) compared with the protocol's formula table"
 _amend("C03", "The byte windows inside generateAESIGE and the cipher are not decided.",
